@@ -120,7 +120,7 @@ func (nm *Norm) Func(fd *ast.FuncDecl) *N {
 	sig := nm.signature(fd)
 	t := nd("func", sig[0], sig[1], sig[2], body)
 	rename(t) // makes every variable's name unique, so that the passes below can work by name
-	t.K[3] = dropUnusedDefs(inlineLocals(t.K[3]))
+	t.K[3] = dropUnusedDefs(inlineLocals(inlineSingleUse(t.K[3])))
 	rename(t) // canonical numbering of what is left
 	canonConds(t)
 	return t
@@ -158,7 +158,12 @@ func (nm *Norm) funcBody(fd *ast.FuncDecl, follow bool) *N {
 	if fd.Type.Results == nil || len(fd.Type.Results.List) == 0 {
 		tail = "funcvoid"
 	}
-	c := &conv{nm: nm, follow: follow}
+	c := &conv{nm: nm, follow: follow, types: map[string]string{}}
+	for _, f := range fd.Type.Params.List {
+		for _, n := range f.Names {
+			c.types[n.Name] = nm.p.Src(f.Type)
+		}
+	}
 	return nd("block", c.block(fd.Body.List, tail)...)
 }
 
@@ -166,7 +171,13 @@ func (nm *Norm) funcBody(fd *ast.FuncDecl, follow bool) *N {
 
 type conv struct {
 	nm     *Norm
-	follow bool // inline private helpers (one level)
+	follow bool              // inline private helpers (one level)
+	types  map[string]string // declared types of parameters and `var` locals (as written)
+}
+
+// ptrElems: xs is a variable declared as a slice of pointers (writes through xs[i] and through a copy of xs[i] coincide)
+func (c *conv) ptrElems(xs *N) bool {
+	return xs.isID() && strings.HasPrefix(c.types[xs.id()], "[]*")
 }
 
 func rootIdent(e ast.Expr) string {
@@ -310,6 +321,19 @@ func itoa(a *N) *N {
 	return nd("itoa", a)
 }
 
+// lenCmp: a length is never negative: 0 < len(x), 1 <= len(x) are len(x) != 0; len(x) <= 0, len(x) < 1 are len(x) == 0.
+func lenCmp(n *N) *N {
+	isLen := func(x *N) bool { return x.Op == "call" && len(x.K) == 2 && x.K[0].Op == "id:len" }
+	a, b := n.K[0], n.K[1]
+	switch {
+	case n.Op == "<" && a.Op == "num:0" && isLen(b), n.Op == "<=" && a.Op == "num:1" && isLen(b):
+		return nd("!", nd("==", b, leaf("num:0")))
+	case n.Op == "<=" && isLen(a) && b.Op == "num:0", n.Op == "<" && isLen(a) && b.Op == "num:1":
+		return nd("==", a, leaf("num:0"))
+	}
+	return n
+}
+
 func (c *conv) expr(e ast.Expr) *N {
 	switch x := e.(type) {
 	case nil:
@@ -342,9 +366,13 @@ func (c *conv) expr(e ast.Expr) *N {
 		case token.NEQ:
 			return nd("!", nd("==", l, r))
 		case token.GTR:
-			return nd("<", r, l)
+			return lenCmp(nd("<", r, l))
 		case token.GEQ:
-			return nd("<=", r, l)
+			return lenCmp(nd("<=", r, l))
+		case token.LSS:
+			return lenCmp(nd("<", l, r))
+		case token.LEQ:
+			return lenCmp(nd("<=", l, r))
 		case token.LAND:
 			return nd("and", l, r)
 		case token.LOR:
@@ -633,9 +661,9 @@ func not(n *N) *N {
 	case "or":
 		return nd("and", not(n.K[0]), not(n.K[1]))
 	case "<":
-		return nd("<=", n.K[1], n.K[0])
+		return lenCmp(nd("<=", n.K[1], n.K[0]))
 	case "<=":
-		return nd("<", n.K[1], n.K[0])
+		return lenCmp(nd("<", n.K[1], n.K[0]))
 	case "id:true":
 		return leaf("id:false")
 	case "id:false":
@@ -1012,6 +1040,7 @@ func (c *conv) stmt(s ast.Stmt, tail string) []*N {
 				continue
 			}
 			for _, n := range vs.Names {
+				c.types[n.Name] = c.nm.p.Src(vs.Type)
 				out = append(out, nd("var", nd("lhs", leaf("id:"+n.Name)), c.typ(vs.Type)))
 			}
 		}
@@ -1072,7 +1101,7 @@ func (c *conv) stmt(s ast.Stmt, tail string) []*N {
 		if val.Op == "_" && key.isID() && len(body) > 0 {
 			b0 := nd("block", body...)
 			elem := nd("index", xs, key).String()
-			if base := baseID(xs); base != "" && !assignedNames(b0)[base] && !assignedNames(b0)[key.id()] {
+			if base := baseID(xs); base != "" && !c.elemsWritten(b0, xs, key) && !assignedNames(b0)[key.id()] {
 				c.nm.fresh++
 				v := leaf(fmt.Sprintf("id:rv%d$", c.nm.fresh))
 				other := false
@@ -1123,15 +1152,53 @@ func identExprs(ids []*ast.Ident) []ast.Expr {
 	return out
 }
 
+// elemsWritten: the loop body writes xs or one of its elements.  Writes THROUGH xs[key] (xs[key].f = …, xs[key].m[k] = …)
+// do not count when the elements are pointers.
+func (c *conv) elemsWritten(body, xs, key *N) bool {
+	base := baseID(xs)
+	elem := nd("index", xs, key).String()
+	written := false
+	check := func(l *N) {
+		if baseID(l) != base {
+			return
+		}
+		if c.ptrElems(xs) {
+			// strip selectors / indexes down to xs[key]: something must have been stripped
+			n, depth := l, 0
+			for n.Op == "sel" || n.Op == "index" {
+				if n.String() == elem {
+					break
+				}
+				n, depth = n.K[0], depth+1
+			}
+			if n.String() == elem && depth > 0 {
+				return
+			}
+		}
+		written = true
+	}
+	walk(body, func(x *N) {
+		switch x.Op {
+		case "assign", "opassign":
+			for _, l := range x.K[0].K {
+				check(l)
+			}
+		case "incdec":
+			check(x.K[1])
+		case "un:&":
+			check(x.K[0])
+		}
+	})
+	return written
+}
+
 // define: `x := e`; the empty slice in all its spellings is a declaration; a straight-line private helper with one
 // final return is inlined.
 func (c *conv) define(lhs *N, rhs []*N) []*N {
 	if len(lhs.K) == 1 && len(rhs) == 1 && lhs.K[0].isID() {
 		r := rhs[0]
-		if r.Op == "emptyslice" {
-			return []*N{nd("var", lhs, r.K[0])}
-		}
-		if r.Op == "lit" && len(r.K) == 1 && strings.HasPrefix(r.K[0].Op, "type:[]") {
+		if r.Op == "emptyslice" || (r.Op == "lit" && len(r.K) == 1 && strings.HasPrefix(r.K[0].Op, "type:[]")) {
+			c.types[lhs.K[0].id()] = strings.TrimPrefix(r.K[0].Op, "type:")
 			return []*N{nd("var", lhs, r.K[0])}
 		}
 	}
@@ -1206,7 +1273,7 @@ func inlineLocals(body *N) *N {
 			}
 			ok := true
 			walk(e, func(v *N) {
-				if v.isID() && (assigned[v.id()] || defCount[v.id()] > 1 || v.id() == name) {
+				if v.isID() && (assigned[v.id()] || v.id() == name) {
 					ok = false
 				}
 			})
@@ -1238,6 +1305,99 @@ func inlineLocals(body *N) *N {
 		body = rew(body)
 	}
 	return body
+}
+
+// inlineSingleUse: `x := f(…)` whose only use is in the statement that follows, where every other call encloses the use
+// (so nothing with a possible effect is evaluated between the original position of the call and its new one):
+// the call moves into the use.  Names are unique when this runs.
+func inlineSingleUse(body *N) *N {
+	reads := map[string]int{}
+	var count func(n *N)
+	count = func(n *N) {
+		for i, k := range n.K {
+			if (n.Op == "define" || n.Op == "var") && i == 0 {
+				for _, l := range k.K {
+					if !l.isID() {
+						count(l)
+					}
+				}
+				continue
+			}
+			if k.isID() {
+				reads[k.id()]++
+			}
+			count(k)
+		}
+	}
+	count(body)
+	assigned := assignedNames(body)
+	var rew func(n *N) *N
+	rew = func(n *N) *N {
+		out := &N{Op: n.Op}
+		for i := 0; i < len(n.K); i++ {
+			k := n.K[i]
+			if n.Op == "block" && k.Op == "define" && len(k.K[0].K) == 1 && len(k.K[1].K) == 1 && k.K[0].K[0].isID() && i+1 < len(n.K) {
+				x, e, next := k.K[0].K[0].id(), k.K[1].K[0], n.K[i+1]
+				okStmt := map[string]bool{"assign": true, "define": true, "expr": true, "return": true, "opassign": true}[next.Op]
+				// a named condition: `c := e; if c {…}` (nothing sits between the definition and the test)
+				if next.Op == "if" && reads[x] == 1 && !assigned[x] && (pure(e) && contains(next.K[0], func(m *N) bool { return m.isID() && m.id() == x }) || singleUseOK(next.K[0], x)) {
+					var sub func(m *N) *N
+					sub = func(m *N) *N {
+						if m.isID() && m.id() == x {
+							return e
+						}
+						o := &N{Op: m.Op}
+						for _, kk := range m.K {
+							o.K = append(o.K, sub(kk))
+						}
+						return o
+					}
+					nn := &N{Op: "if", K: append([]*N{pushNot(sub(next.K[0]))}, next.K[1:]...)}
+					if nn.K[0].Op == "!" && len(nn.K) == 3 {
+						nn = &N{Op: "if", K: []*N{nn.K[0].K[0], nn.K[2], nn.K[1]}}
+					}
+					out.K = append(out.K, rew(nn))
+					i++
+					continue
+				}
+				if !pure(e) && reads[x] == 1 && !assigned[x] && okStmt && singleUseOK(next, x) {
+					var sub func(m *N) *N
+					sub = func(m *N) *N {
+						if m.isID() && m.id() == x {
+							return e
+						}
+						o := &N{Op: m.Op}
+						for _, kk := range m.K {
+							o.K = append(o.K, sub(kk))
+						}
+						return o
+					}
+					out.K = append(out.K, rew(sub(next)))
+					i++
+					continue
+				}
+			}
+			out.K = append(out.K, rew(k))
+		}
+		return out
+	}
+	return rew(body)
+}
+
+// singleUseOK: x occurs in the statement outside closures, and every call of the statement contains x.
+func singleUseOK(stmt *N, x string) bool {
+	has := func(n *N) bool { return contains(n, func(m *N) bool { return m.isID() && m.id() == x }) }
+	if !has(stmt) {
+		return false
+	}
+	ok := true
+	walk(stmt, func(n *N) {
+		if (strings.HasPrefix(n.Op, "call") || n.Op == "funclit") && !(has(n) && n.Op != "funclit") {
+			ok = false
+		}
+	})
+	// the left-hand side of an assignment is evaluated first: it must not depend on anything the call could change
+	return ok
 }
 
 // aliasOK: after the definition `x := y` (node def) neither variable is written, directly or through, and if the
